@@ -85,8 +85,15 @@ export class Hash256Writer {
   private bufferLength = 0;
   private bytesHashed = 0;
   private finished = false;
+  private tagsWritten = 0;
+
+  /** number of tags written so far: a position in the structure being hashed */
+  get tagCount(): number {
+    return this.tagsWritten;
+  }
 
   updateTag(value: string): void {
+    this.tagsWritten++;
     this.updateByte(1);
     this.updateUtf8WithLength(value);
   }
